@@ -52,6 +52,9 @@ def check(pid):
 def reverts(only):
     kf = json.load(open(os.path.join(V, "known_findings.json")))
     res = {}
+    rf = os.path.join(V, "seeded", "REVERTS.json")
+    if os.path.exists(rf):
+        res = json.load(open(rf))          # merge: a partial run keeps the other entries
     for e in kf["fixed"]:
         m = re.match(r"fixed: property=(C\d\d) ([0-9a-f]{7})", e)
         if not m or (only and m.group(2) not in only):
